@@ -1,4 +1,4 @@
-//@unit B2 : BlockDecoder::decompress_block / decode_block_content: slicing of a compressed block never panics, the three internal assert!s hold, the Reserved-type panic! arm is unreachable under the header contract, a block regenerates at most 128 KiB, exact source consumption per block type
+//@unit B2 : BlockDecoder::decompress_block and decode_block_content on their verbatim bodies (Ok(n) = exactly n source bytes: 1 for RLE, content_size otherwise; raw / RLE blocks regenerate exactly decompressed_size bytes; the buffer only grows, by at most 128 KiB; the Reserved arm's panic! is unreachable): slicing of a compressed block never panics, the three internal assert!s hold, the Reserved-type panic! arm is unreachable under the header contract, a block regenerates at most 128 KiB, exact source consumption per block type
 //@props C03,C05,C01,C10
 //@tier quick
 //@profile rel
@@ -119,7 +119,8 @@ impl DecodeBuffer {
         requires old(self).inv(), fill_length <= u32::MAX,
         ensures
             final(self).inv(),
-            r is Ok ==> final(self).view().len() == old(self).view().len() + fill_length && final(read).avail() == old(read).avail() - fill_length,
+            r is Ok ==> final(self).view().len() == old(self).view().len() + fill_length && final(read).avail() == old(read).avail() - fill_length
+                && old(read).avail() >= fill_length,
             r is Err ==> final(self).view() == old(self).view(),
     { unimplemented!() }
 }
@@ -174,6 +175,7 @@ pub fn execute_sequences(scratch: &mut DecoderScratch) -> (r: Result<(), Execute
     ensures
         final(scratch).buffer.inv(), final(scratch).huf == old(scratch).huf, final(scratch).fse == old(scratch).fse,
         r is Ok ==> final(scratch).buffer.view().len() - old(scratch).buffer.view().len() <= MAX_BLOCK_SIZE,
+        final(scratch).buffer.view().len() >= old(scratch).buffer.view().len(),     // Q3 proves both bounds on every path
 { unimplemented!() }
 
 pub enum DecompressBlockError {
@@ -233,7 +235,25 @@ impl BlockDecoder {
             // C05: at most one block's worth of output
             r is Ok ==> final(workspace).buffer.view().len() - old(workspace).buffer.view().len() <= MAX_BLOCK_SIZE,
             // C10: exactly content_size bytes are taken from the source
-            r is Ok ==> final(source).avail() == old(source).avail() - header.content_size,
+            r is Ok ==> final(source).avail() == old(source).avail() - header.content_size && old(source).avail() >= header.content_size
+                && final(workspace).buffer.view().len() >= old(workspace).buffer.view().len(),
+//@end
+
+//@extract file=ruzstd/src/decoding/block_decoder.rs impl="^impl BlockDecoder" fn=decode_block_content sigrewrite="pub fn decode_block_content(=>pub fn decode_block_content<R: Read>(||mut source: impl Read,=>source: &mut R," rewrite=".extend_from_reader(&mut source, header.decompressed_size as usize)=>.extend_from_reader(source, header.decompressed_size as usize)"
+//@spec
+        requires
+            old(workspace).wf(), header.from_h1(),
+        ensures
+            final(workspace).buffer.inv(),
+            r matches Ok(n) ==> final(workspace).wf() && old(source).avail() >= n
+                && final(workspace).buffer.view().len() >= old(workspace).buffer.view().len()
+                // C10: Ok(n) = exactly n bytes were taken from the source: 1 for RLE, the content size otherwise
+                && final(source).avail() == old(source).avail() - n
+                && n == (if header.block_type is RLE { 1 } else { header.content_size as int })
+                // C05: at most one block's worth of output
+                && final(workspace).buffer.view().len() - old(workspace).buffer.view().len() <= MAX_BLOCK_SIZE
+                // C01: raw and RLE blocks regenerate exactly decompressed_size bytes
+                && (!(header.block_type is Compressed) ==> final(workspace).buffer.view().len() - old(workspace).buffer.view().len() == header.decompressed_size),
 //@end
 
 }
